@@ -112,14 +112,6 @@ class PFDevice(sd.Device):
             return
         return super().uplink(link, pk)
 
-    def detach(self, link):
-        if self.manual and self.link is link:
-            marker('obs.down')
-            self.x.on_down()
-            self.replies = []
-        return super().detach(link)
-
-
 def table_entries(sc):
     ents = []
     for i in range(sc['np']):
@@ -244,6 +236,17 @@ class Exec(Stepper):
         self.drec = next(r for r in s.threads if r.vt is cf.incoming)
         dev.manual = True
         self.link0 = cf.link
+        # the connection goes away when the driver's close() begins (SimDriver sets `closed` first, and a packet
+        # handed to a closed link is lost): park and log there
+        link_close = self.link0.close
+
+        def close():
+            if not self.down:
+                marker('obs.down')
+                self.on_down()
+                dev.replies = []
+            return link_close()
+        self.link0.close = close
 
         # ---- observation points (instance level, /repo untouched)
         q = upd.request_queue
@@ -362,10 +365,11 @@ class Exec(Stepper):
         path = os.path.join(SCRATCH or '/tmp', 'x02-%d-%d.yaml' % (os.getpid(), self.ncall))
         with open(path, 'w') as f:
             f.write(yaml_text(entries))
-        self.ev.append(E('call', f=[{'p': p, 'q': q} for (p, q, _h) in entries]))
         helper = self.helper
 
         def body():
+            # (logged in the region that reads the file and looks the first parameter up)
+            self.ev.append(E('call', f=[{'p': p, 'q': q} for (p, q, _h) in entries]))
             try:
                 r = helper.store_params_from_file(path)
                 res = 'true' if r is True else 'false' if r is False else 'other:%r' % (r,)
@@ -511,6 +515,8 @@ class Exec(Stepper):
             return True
         if op.kind == 'queue.get' and op.obj is self.upd.request_queue and rec is self.urec:
             return True         # the updater is about to take the next request (not close() draining the FIFO)
+        if op.kind == 'queue.get' and op.obj is self.link0.in_queue and rec is self.drec:
+            return True         # the dispatcher is about to take the next packet (taking it cancels its retry timer)
         return False
 
     def _kind(self, rec):
@@ -519,6 +525,8 @@ class Exec(Stepper):
             return 'updq.put'
         if op.kind == 'queue.get' and op.obj is self.upd.request_queue:
             return 'updq.get'
+        if op.kind == 'queue.get' and op.obj is self.link0.in_queue:
+            return 'updq.get'       # (same treatment in act(): a parked get is stepped through on the way to the target)
         return op.kind
 
     def project(self):
@@ -1327,13 +1335,6 @@ class BDevice(sd.Device):
             return
         return super().uplink(link, pk)
 
-    def detach(self, link):
-        if self.manual and self.link is link:
-            marker('obs.down')
-            self.x.ev.append(EB('down'))
-        return super().detach(link)
-
-
 def kval(x):
     """Python float -> exact integer value * 65536 (-9 if not representable)"""
     try:
@@ -1376,6 +1377,7 @@ class ExecB(Stepper):
         self.ndata = 0
         self.undo = []
         self.sent_types = {}
+        self.cur_data = None
         self.bid_sent = 0
         w = sd.set_world(sd.World())
         entries = [{'group': n.split('.')[0].encode(), 'name': n.split('.')[1].encode(), 'type': t} for (n, t) in LOG_TOC_B]
@@ -1410,6 +1412,16 @@ class ExecB(Stepper):
             self.undo.append(mutant(self))
         dev.manual = True
         self.t0 = self.now_ms()
+        link_close = self.link0.close
+        self.closed_logged = False
+
+        def close():
+            if not self.closed_logged:
+                self.closed_logged = True
+                marker('obs.down')
+                self.ev.append(EB('down'))
+            return link_close()
+        self.link0.close = close
 
         # a thread parks just before it hands a log control message / parameter write to Crazyflie.send_packet
         # (outside _send_lock, so that a parked thread never keeps other senders out)
